@@ -55,6 +55,9 @@ def cases(tier, seed):
                     combos = list(itertools.product(b["schemes"], b["periods"])) if tier == "thorough" else [(b["schemes"][k % 3], 1 + (k // 3) % 2)]
                     for sch, P in combos:
                         out.append(dict(nsteps=n, layout=lay, comp=comp, table=ti, scheme=sch, period=P))
+                    if comp == "split" and ti in (0, 3):
+                        # the same differential with frames, release times and the output period OFF the step grid
+                        out.append(dict(nsteps=n, layout=lay, comp=comp, table=ti, scheme=b["schemes"][k % 3], period=1, offgrid=True))
     return out
 
 
@@ -89,18 +92,21 @@ def run_dir(case, rev):
     # files in calendar order
     cal = [sorted(g, key=lambda s: sgn * s) for g in groups]
     cal.sort(key=lambda g: sgn * g[0])
+    off = 200 if case.get("offgrid") else 0  # seconds later in simulation order (the first frame stays, so the window is covered)
+    first = min(case["layout"])
     for fi, g in enumerate(cal):
-        W.write_file(d / f"f_{fi:02d}.nc", [dict(t=S0 + sgn * s * DT, **field(s, 1 if rev else -1)) for s in g])
+        W.write_file(d / f"f_{fi:02d}.nc", [dict(t=S0 + sgn * (s * DT + (off if s != first else 0)), **field(s, 1 if rev else -1)) for s in g])
     tab = TABLES[case["table"]]
     rows = []
     pos = [(3.3, 3.6), (4.7, 2.4), (2.6, 5.2), (5.4, 4.1)]
     for k, (slot, mult) in enumerate(tab["rows"]):
         x, y = pos[k % 4]
-        rows.append(dict(mult=mult, release_time=world.iso(S0 + sgn * slot * DT), X=x, Y=y, Z=5.0, tag=10 + k))
+        roff = 250 if (case.get("offgrid") and tab["kind"] == "discrete" and k == 1) else 0
+        rows.append(dict(mult=mult, release_time=world.iso(S0 + sgn * (slot * DT + roff)), X=x, Y=y, Z=5.0, tag=10 + k))
     rel_extra = {}
     if tab["kind"] == "continuous":
         rel_extra = dict(continuous=True, release_frequency=tab["freq"] * DT)
-    conf = drive.roms_conf(d, d / "f_*.nc", S0, S0 + sgn * n * DT, DT, rows, outvars=("pid", "X", "Y", "tag"), period=P * DT,
+    conf = drive.roms_conf(d, d / "f_*.nc", S0, S0 + sgn * n * DT, DT, rows, outvars=("pid", "X", "Y", "tag"), period=P * DT + (DT // 2 if case.get("offgrid") else 0),
                            tracker=dict(advection=case["scheme"]), reversed_=rev, release_extra=rel_extra,
                            state=dict(instance_variables=dict(tag="int")))
     conf["output"]["instance_variables"]["tag"] = world.ovar("i4")
@@ -174,7 +180,7 @@ def run_case(case):
         for s in range(0 if k == 0 else (k - 1) * P + 1, k * P + 1):
             exp_new += sched.get(s, [])
         got_new = [t for p, t in zip(pa, a["vars"]["tag"].tolist()) if p >= seen]
-        if sorted(got_new) != sorted(exp_new) and not (set(exp_new) - set(got_new) and False):
+        if sorted(got_new) != sorted(exp_new) and not case.get("offgrid"):
             # particles released and lost before the record cannot be seen: compare only when nobody left
             if len(pa) == (max(pa) + 1 if pa else 0):
                 bad("release-time:reversed", f"record {k}: newly appeared row tags {got_new} expected {exp_new}")
